@@ -103,6 +103,28 @@ let handle (line : string) : string =
     let dests = String.concat "|" (List.map hex_of_bytes r.o_dests) in
     Printf.sprintf "O %d %d %d %d %d %s %s" (if r.o_mis then 1 else 0) (if r.o_con then 1 else 0) (int_of_n r.o_ncalls)
       (int_of_n r.o_left) (if r.o_events_ok then 1 else 0) (if res = "" then "-" else res) dests
+  | "C" :: kind :: sync :: level :: fail :: hdr :: ops ->
+    (* container writer model: C <g|z> <sync> <level> <failAt> <extra|N>:<name>:<comment>:<mtime>:<os> ops... *)
+    let lv = int_of_string level in
+    let z = if lv = 0 then Z0 else if lv > 0 then Zpos (pos_of_int lv) else Zneg (pos_of_int (-lv)) in
+    let fa = int_of_string fail in
+    let k = if kind = "z" then KZlib else
+      (match String.split_on_char ':' hdr with
+       | [ex; nm; cm; mt; os] ->
+         KGzip { gw_extra = (if ex = "N" then None else Some (bytes_of_hex ex)); gw_name = bytes_of_hex nm;
+                 gw_comment = bytes_of_hex cm; gw_mtime = n_of_int (int_of_string mt); gw_os = n_of_int (int_of_string os) }
+       | _ -> failwith "hdr") in
+    let ops = List.filter (fun o -> o <> "") ops in
+    let ops = List.map (fun o ->
+      match o.[0] with
+      | 'w' -> OWrite (bytes_of_hex (let t = String.sub o 1 (String.length o - 1) in if t = "" then "-" else t))
+      | 'f' -> OFlush | 'c' -> OClose | 'r' -> OReset
+      | _ -> failwith "op") ops in
+    let r = cwrun k (sync = "1") z (if fa = 0 then None else Some (n_of_int fa)) ops in
+    let res = String.concat "," (List.map (fun (n, e) -> Printf.sprintf "%d:%d" (int_of_n n) (if e then 1 else 0)) r.wres) in
+    let dests = String.concat "|" (List.map (fun chunks ->
+      if chunks = [] then "." else String.concat "," (List.map hex_of_bytes chunks)) r.wdests) in
+    Printf.sprintf "W %d %s %s 1 0" (if r.woob then 1 else 0) (if res = "" then "-" else res) dests
   | _ -> "ERR bad request"
 
 let () =
